@@ -47,6 +47,8 @@ def context(seed):
         PR.Item("d_single", G.AceX("deny", 17, al["host1"], G.PortX("eq", (53,)), al["net24"], none)),
         PR.Item("p_multi", G.AceX("permit", 17, al["any"], G.PortX("eq", (1, 2)), al["any"], none)),
         PR.Item("head", None, "= block"),
+        # identical to one piece of the split of the entry under test (source eq a b, no dst port)
+        entry(seed, exprs(seed)[1], exprs(seed)[0]),
     ]
 
 
